@@ -427,3 +427,91 @@ theorem c08_unified_raises_only_on_conflict {h : Heap} (hr : Reach h) (c : Nat)
 example : ((opsConflict.foldl hstep Heap.empty).unifiedBundle 0).2 = .error errProv := rfl
 
 end Prov.C08
+
+namespace Prov.C08
+open Prov Prov.Heap Prov.C05 Prov.C09 Prov.C04
+
+/-- two stored values of one PROV attribute that are `!=` cannot both be represented by one value -/
+theorem conflict_of_ne (a : QName) (hprov : isProvAttr a = true) (v1 v2 : Value)
+    (hok1 : PairOk a v1) (hok2 : PairOk a v2) (hv1 : valOk v1) (hne : v2.pyEq v1 = false) : Conflict a v1 v2 := by
+  intro x ⟨h1, h2⟩
+  obtain ⟨_, w1, hw1, hr1⟩ := h1
+  obtain ⟨_, w2, hw2, hr2⟩ := h2
+  have hcls : isRefAttr a = true ∨ isTimeAttr a = true := by
+    simpa [isProvAttr, Bool.or_eq_true] using hprov
+  rcases hcls with href | htime
+  · have g1 := hok1.1 href
+    have g2 := hok2.1 href
+    cases hp1 : v1 <;> rw [hp1] at g1 <;> simp [isQn] at g1
+    cases hp2 : v2 <;> rw [hp2] at g2 <;> simp [isQn] at g2
+    rename_i q1 q2
+    rw [hp1] at hw1; rw [hp2] at hw2
+    cases w1 <;> simp [vEq] at hw1
+    cases w2 <;> simp [vEq] at hw2
+    rename_i q1' q2'
+    have hx1 : (∃ y, x.2 = .qn y ∧ y.uri = q1.uri) ∨ x.2 = .uri q1.uri := by
+      rcases hr1 with hr | hr
+      · cases hx : x.2 <;> rw [hx] at hr <;> simp_all [Value.keyEq, Value.num?]
+      · cases hx : x.2 <;> rw [hx] at hr <;> simp_all [Value.pyEq, Value.keyEq, Value.num?]
+    have hx2 : (∃ y, x.2 = .qn y ∧ y.uri = q2.uri) ∨ x.2 = .uri q2.uri := by
+      rcases hr2 with hr | hr
+      · cases hx : x.2 <;> rw [hx] at hr <;> simp_all [Value.keyEq, Value.num?]
+      · cases hx : x.2 <;> rw [hx] at hr <;> simp_all [Value.pyEq, Value.keyEq, Value.num?]
+    rw [hp1, hp2] at hne
+    simp only [Value.pyEq, Value.keyEq, beq_eq_false_iff_ne, ne_eq] at hne
+    apply hne
+    rcases hx1 with ⟨y1, e1, u1⟩ | e1 <;> rcases hx2 with ⟨y2, e2, u2⟩ | e2
+    · rw [e1] at e2; cases e2; exact u2.symm.trans u1
+    · rw [e1] at e2; cases e2
+    · rw [e1] at e2; cases e2
+    · rw [e1] at e2; simp only [Value.uri.injEq] at e2; exact e2.symm
+  · have g1 := hok1.2.1 htime
+    have g2 := hok2.2.1 htime
+    cases hp1 : v1 <;> rw [hp1] at g1 <;> simp [isDt] at g1
+    cases hp2 : v2 <;> rw [hp2] at g2 <;> simp [isDt] at g2
+    rename_i t1 t2
+    rw [hp1] at hw1 hv1; rw [hp2] at hw2
+    have e1 : w1 = .dt t1 := by cases w1 <;> simp_all [vEq]
+    have e2 : w2 = .dt t2 := by cases w2 <;> simp_all [vEq]
+    subst e1; subst e2
+    have k1 : x.2.keyEq (.dt t1) = true := by
+      rcases hr1 with hr | hr
+      · exact hr
+      · have : (Value.dt t1).keyEq x.2 = true := by cases hx : x.2 <;> rw [hx] at hr <;> simp_all [Value.pyEq]
+        exact keyEq_symm this
+    have k2 : (Value.dt t2).keyEq x.2 = true := by
+      rcases hr2 with hr | hr
+      · exact keyEq_symm hr
+      · cases hx : x.2 <;> rw [hx] at hr <;> simp_all [Value.pyEq]
+    have hxv : valOk x.2 := by
+      cases hx : x.2 <;> rw [hx] at k1 <;> simp_all [Value.keyEq, Value.num?, valOk]
+    have := keyEq_trans hxv k2 k1
+    rw [hp1, hp2] at hne
+    simp only [Value.pyEq] at hne
+    rw [this] at hne
+    exact Bool.noConfusion hne
+
+/-- **C08, `unified()` raises exactly when there is a conflict** — for one group of stored records of a heap with the reachable
+    invariants: the merge ends in an error if and only if an earlier and a later statement of the group give, for one PROV
+    formal attribute, values that are `!=` (`Props/C08L` for "if", the theorems above for "only if") -/
+theorem c08_mergeGroup_error_iff (h : Heap) (g : Good h) (r0 : Nat) (rest : List Nat)
+    (hex : ∀ r ∈ r0 :: rest, r < h.recs.size) :
+    (∃ h' e, h.mergeGroup (r0 :: rest) = (h', .error e)) ↔ Disagree h (r0 :: rest) rest := by
+  constructor
+  · rintro ⟨h', e, hres⟩
+    exact (c08_mergeGroup_error_conflict h r0 rest g.allInv1 (fun r hr => ⟨hex r hr, g.storedRec r (hex r hr)⟩) h' e hres).2
+  · rintro ⟨r1, hr1, r2, hr2, p1, hp1, p2, hp2, hu, hprov, hne⟩
+    have s1 := (g.storedRec r1 (hex r1 hr1)).stored.pairs p1 hp1
+    have s2 := (g.storedRec r2 (hex r2 (List.mem_cons_of_mem _ hr2))).stored.pairs p2 hp2
+    have hc : Conflict p2.1 p1.2 p2.2 :=
+      conflict_of_ne p2.1 hprov p1.2 p2.2 (pairOk_congr hu s1.1) s2.1 s1.2 hne
+    cases hm : h.mergeGroup (r0 :: rest) with
+    | mk h' res =>
+      cases res with
+      | error e => exact ⟨h', e, rfl⟩
+      | ok mref =>
+        exfalso
+        exact c08_conflict_no_merge h g r0 rest hex p2.1 hprov r1 r2 hr1 (List.mem_cons_of_mem _ hr2) p1.1 p2.1 p1.2 p2.2
+          (by cases p1; exact hp1) (by cases p2; exact hp2) hu rfl hc h' mref hm
+
+end Prov.C08
